@@ -98,7 +98,7 @@ PROBE_TAGS = {
     "op:stop": {"C04", "C02"}, "op:close": {"C04", "C02"}, "op:drop_store": {"C15", "C04"},
     "join": {"C04", "C15", "C11", "C10"}, "stop.drain": {"C04", "C15", "C11"},
     "op:unsub": {"C09", "C10"}, "op:add_sub": {"C09", "C07"}, "op:subscribed": {"C10", "C09"}, "sub.reg": {"C10", "C09"}, "op:iter": {"C14"},
-    "op:next": {"C14"}, "iter.end": {"C14"}, "iter.drop": {"C14"}, "chjoin": {"C10", "C09"}, "ctxdrop": {"C10", "C09"},
+    "op:next": {"C14"}, "iter.end": {"C14"}, "iter.drop": {"C14"}, "chjoin": {"C10", "C09", "C04", "C15"}, "ctxdrop": {"C10", "C09"},
     "snap": {"C09", "C07", "C03"}, "clear": {"C09", "C04"}, "chfwd": {"C10"}, "w.start": {"C11", "C02"}, "w.cb": {"C11", "C02"},
     "op:add_reducer": {"C07"}, "op:add_mw": {"C07"}, "op:wait": set(),
 }
@@ -337,11 +337,14 @@ def do_gen(ctx, inst, limit):
         jb = [cover.to_json(g, b, i) for i, b in enumerate(behs)]
         # blocked probes: a few states per kind of operation that must wait
         pr = cover.probes(g, per_kind=1 if ctx.tier == "quick" else 3, max_total=8 if ctx.tier == "quick" else 40)
-        # a blocking send is watched for 1.5 s (one probe per channel, at most three of them), everything else for 250 ms
+        # a blocking send (one probe per channel, at most three) and a wait for a thread or the pool to finish
+        # are watched for 1.5 s, everything else for 250 ms
         long_for = []
         for b in pr:
             w = b["probe"]["what"]
-            if w.startswith("send:") and w not in long_for and len(long_for) < 3:
+            if w.startswith("send:") and w not in long_for and len([x for x in long_for if x.startswith("send:")]) < 3:
+                long_for.append(w)
+            if w in ("chjoin", "join", "stop.drain") and w not in long_for:    # waits for a thread / the pool to finish
                 long_for.append(w)
         seen_long = set()
         pj = []
